@@ -99,7 +99,7 @@ def shortestDigits (m : Nat) (e : Int) (boundary : Bool) : Nat × Int :=
   search 18 1
 
 /-- `eprec`: 6 for strconv 'g' with shortest precision (fmt's %v) -/
-def fmtShortestChars (bits : UInt64) (eprec : Int := 6) : List Char :=
+def fmtShortestChars (bits : UInt64) (eprec : Int := 6) (emin : Int := -4) : List Char :=
   let b : Nat := bits.toNat
   let sign : Nat := b / 2^63
   let ex : Nat := (b / 2^52) % 2048
@@ -116,7 +116,7 @@ def fmtShortestChars (bits : UInt64) (eprec : Int := 6) : List Char :=
     let ds := natDigits d
     let nd := ds.length
     let exp := dp - 1
-    if exp < -4 || exp ≥ eprec then
+    if exp < emin || exp ≥ eprec then
       -- %e
       let mant := match ds with
         | [] => ['0']
